@@ -2,7 +2,7 @@ SPECIFICATION Spec
 CONSTANTS
   EvilConn = {"e1", "e2"}
   LegitConn = {"l1"}
-  FinishKinds = {"genuine", "wrongkey", "stale", "reordered", "replayed", "unknown", "self", "reflect", "badseal", "short", "badtlv"}
+  FinishKinds = {"genuine", "wrongkey", "stale", "reordered", "replayed", "unknown", "self", "reflect", "crossname", "badseal", "short", "badtlv"}
   StartLens = {"ok", "short", "long", "empty"}
   Ops = {"GetAcc", "GetChar", "PutVal", "PutSub", "Resource", "AddPair", "RemPair"}
   Noise = {"psstart", "pswrong", "pszero"}
